@@ -200,3 +200,37 @@ func VerifStruct() {
 	}
 	verifAssert(specMatch(verifNormalize(r1), r2), "C18:result-differs-from-generic-document")
 }
+
+// VerifStructAnon: two different anonymous struct types with a field of the
+// same name at different positions (type-name keyed caches confuse them).
+func VerifStructAnon() {
+	expr := verifParamStr("expr")
+	type inner = struct {
+		Age  float64
+		Name string
+	}
+	doc := struct {
+		Name  string
+		Owner inner
+		Kids  []struct {
+			X    float64
+			Y    float64
+			Name string
+		}
+	}{Name: verifNondetString(1), Owner: inner{Age: verifNondetFloat64(), Name: verifNondetString(1)}}
+	doc.Kids = append(doc.Kids, struct {
+		X    float64
+		Y    float64
+		Name string
+	}{X: 1, Y: 2, Name: verifNondetString(1)})
+	image := map[string]interface{}{"name": doc.Name, "owner": map[string]interface{}{"age": doc.Owner.Age, "name": doc.Owner.Name},
+		"kids": []interface{}{map[string]interface{}{"x": 1.0, "y": 2.0, "name": doc.Kids[0].Name}}}
+	r1, e1 := Search(expr, doc)
+	r2, e2 := Search(expr, image)
+	verifNote("err", e1 != nil)
+	verifAssert((e1 != nil) == (e2 != nil), "C18:error-ness-differs-from-generic-document")
+	if e1 != nil || e2 != nil {
+		return
+	}
+	verifAssert(specMatch(r1, r2), "C18:result-differs-from-generic-document")
+}
